@@ -629,7 +629,13 @@ Qed.
 
 Theorem serinv_step_ev c s e :
   (ev_announces e = true -> (next s < 4294967295)%N) -> SerInv s -> SerInv (fst (step_ev c s e)).
-Proof. destruct e as [id argv|svs rs t]; cbn [step_ev ev_announces]; [apply serinv_step|intros _ H; exact H]. Qed.
+Proof.
+  destruct e as [id argv|svs rs t]; cbn [step_ev ev_announces]; [apply serinv_step|].
+  (* a reload makes the pending requests forget the refilled slots: serials untouched *)
+  intros _ [ND B]. unfold SerInv. cbn [fst reqs next]. split.
+  - rewrite map_map. rewrite (map_ext (fun r => ser (forget _ r)) ser) by reflexivity. exact ND.
+  - apply Forall_forall. intros r' Hr. apply in_map_iff in Hr as (r & <- & Hr). exact (proj1 (Forall_forall _ _) B r Hr).
+Qed.
 
 Lemma step_ev_next c s e :
   next (fst (step_ev c s e)) = if ev_announces e then ((next s + 1) mod 4294967296)%N else next s.
